@@ -176,7 +176,18 @@ pub fn transform_file(input: &str, output: &str, cfg: &TransformConfig) -> Resul
     if output == "-" {
         transform_stream(&mut in_reader, &mut std::io::stdout(), cfg)?;
     } else {
-        let mut out_temp = NamedTempFile::new()?;
+        // (the error is reported for the directory: the random name of the file which
+        // could not be created says nothing, and differs from run to run)
+        let mut out_temp = NamedTempFile::new().map_err(|e| {
+            std::io::Error::new(
+                e.kind(),
+                format!(
+                    "cannot create a temporary file in {}: {}",
+                    std::env::temp_dir().display(),
+                    std::io::Error::from(e.kind())
+                ),
+            )
+        })?;
         transform_stream(&mut in_reader, &mut out_temp, cfg)?;
         // Copy content rather than rename (by .persist()) since this
         // could cross filesystems; some apps (e.g. eog) also fail to
